@@ -11,13 +11,15 @@
 (*   mode     the consent mode ("local" is also the default when no mode    *)
 (*            file exists)                                                   *)
 (*   token    <telemetry dir>/local/upload.token: "absent", "fresh"         *)
-(*            (younger than 24 h) or "stale" (older)                         *)
+(*            (younger than 24 h), "stale" (older) or "ghost" (a name that  *)
+(*            looks absent but cannot be created: a dangling symlink, a     *)
+(*            symlink loop)                                                  *)
 (*   localOK  the local directory exists or can be created                  *)
 EXTENDS Integers, FiniteSets, Sequences, TLC
 
 Markers == {"unset", "1", "2", "other"}
 Modes   == {"on", "local", "off"}
-Tokens  == {"absent", "fresh", "stale"}
+Tokens  == {"absent", "fresh", "stale", "ghost"}
 
 Rows == [marker : Markers, crash : BOOLEAN, upload : BOOLEAN, mode : Modes, token : Tokens, localOK : BOOLEAN]
 
@@ -27,7 +29,7 @@ Eligible(r) == r.marker = "unset" /\ r.mode # "off" /\ r.localOK
 
 (* a lone starter gets the upload token iff it wants to upload and nobody   *)
 (* took the token during the last 24 hours                                   *)
-Acquires(r) == Eligible(r) /\ r.upload /\ r.token # "fresh"
+Acquires(r) == Eligible(r) /\ r.upload /\ r.token \in {"absent", "stale"}
 
 (* the decision table *)
 Launch(r) ==
@@ -52,64 +54,106 @@ Launch(r) ==
 (*   o.launched   number of processes of any kind launched, transitively     *)
 (*   o.acquired   the starter created / replaced the token file              *)
 (*   o.wrote      classes of files created, changed or removed               *)
+(* and the circumstances e of the run that are not part of the row:         *)
+(*   e.calls      Start is called this many times, one after the other (in  *)
+(*                one process, or by as many processes started in sequence)  *)
+(*   e.dbg        <telemetry dir>/debug is "absent", a "dir" (the user asks  *)
+(*                for log files) or a "file"                                 *)
+(*   e.leak       GO_TELEMETRY_CHILD_UPLOAD=1 is already in the environment  *)
+(*                of the application (it asserts that an ancestor holds the  *)
+(*                token)                                                     *)
+(*   e.appCrash   the application crashes right after Start                  *)
+Extras == [calls : 1..3, dbg : {"absent", "dir", "file"}, leak : BOOLEAN, appCrash : BOOLEAN]
+DefaultExtras == [calls |-> 1, dbg |-> "absent", leak |-> FALSE, appCrash |-> FALSE]
+Applicable(r, e) == /\ e.calls > 1 => r.marker \in {"unset", "2"}      \* a sidecar never returns from Start
+                    /\ e.leak => r.marker = "unset"
+                    /\ e.appCrash => r.marker = "unset" /\ r.crash
+OneFactor(e) == Cardinality({f \in DOMAIN e : e[f] # DefaultExtras[f]}) <= 1
 
 (* "launches a child process only if the mode is not off and crash          *)
 (*  reporting or an acquired upload token calls for one"                     *)
-OnlyIfCalledFor(r, o) == o.sidecars > 0 => /\ r.mode # "off"
-                                           /\ (r.crash \/ o.acquired)
-(* an uploader sidecar needs the token *)
-UploaderNeedsToken(r, o) == o.uploaders > 0 => o.acquired
+OnlyIfCalledFor(r, e, o) == o.sidecars > 0 => /\ r.mode # "off"
+                                              /\ (r.crash \/ o.acquired)
+(* an uploader sidecar needs the token (held by this starter or, if the     *)
+(* environment says so, by an ancestor)                                      *)
+UploaderNeedsToken(r, e, o) == o.uploaders > 0 => (o.acquired \/ e.leak)
 (* "a process that is itself a telemetry child, or a descendant of one,     *)
 (*  never launches another"                                                  *)
-NeverRecursive(r, o) == /\ r.marker \in {"1", "2"} => o.sidecars = 0
-                        /\ o.nested = 0
-(* "with mode off nothing is launched and nothing is written" *)
-OffIsInert(r, o) == r.mode = "off" => o.launched = 0 /\ o.wrote = {}
+NeverRecursive(r, e, o) == /\ r.marker \in {"1", "2"} => o.sidecars = 0
+                           /\ o.nested = 0
+(* "with mode off nothing is launched and nothing is written".  One thing is *)
+(* tolerated and counted as an observation: a process that is already the   *)
+(* sidecar and was told to upload opens the uploader's log file in a debug  *)
+(* directory the user made to get log files (two documented conventions     *)
+(* meet there: "mode off: write nothing" and "debug directory: write logs") *)
+OffDebugAllowance(r, e) == IF e.dbg = "dir" /\ r.marker = "1" /\ r.upload THEN {"debuglog"} ELSE {}
+OffIsInert(r, e, o) == r.mode = "off" => o.launched = 0 /\ o.wrote \subseteq OffDebugAllowance(r, e)
 (* the token is handed out at most once per 24 h: a fresh token stands for  *)
 (* an acquisition made within the last 24 hours, so with one present nobody *)
 (* acquires it again.  (Whether a starter that does not ask for upload may  *)
 (* take the token is not said by the property; the table says it does not,  *)
 (* and a disagreement there is a divergence, not a violation.)              *)
-TokenOncePer24h(r, o) == o.acquired => r.token # "fresh"
+TokenOncePer24h(r, e, o) == o.acquired => r.token # "fresh"
+(* ... also over several starts: with no stale token present, all the       *)
+(* starts together get at most one uploader sidecar on the strength of a    *)
+(* token of their own                                                        *)
+AtMostOneUploader(r, e, o) == (r.token # "stale" /\ ~e.leak) => (IF r.token = "fresh" THEN 1 ELSE 0) + o.uploaders <= 1
 
-Clauses == {"OnlyIfCalledFor", "UploaderNeedsToken", "NeverRecursive", "OffIsInert", "TokenOncePer24h"}
-Holds(c, r, o) == CASE c = "OnlyIfCalledFor"    -> OnlyIfCalledFor(r, o)
-                    [] c = "UploaderNeedsToken" -> UploaderNeedsToken(r, o)
-                    [] c = "NeverRecursive"     -> NeverRecursive(r, o)
-                    [] c = "OffIsInert"         -> OffIsInert(r, o)
-                    [] c = "TokenOncePer24h"    -> TokenOncePer24h(r, o)
+Clauses == {"OnlyIfCalledFor", "UploaderNeedsToken", "NeverRecursive", "OffIsInert", "TokenOncePer24h", "AtMostOneUploader"}
+Holds(c, r, e, o) == CASE c = "OnlyIfCalledFor"     -> OnlyIfCalledFor(r, e, o)
+                       [] c = "UploaderNeedsToken"  -> UploaderNeedsToken(r, e, o)
+                       [] c = "NeverRecursive"      -> NeverRecursive(r, e, o)
+                       [] c = "OffIsInert"          -> OffIsInert(r, e, o)
+                       [] c = "TokenOncePer24h"     -> TokenOncePer24h(r, e, o)
+                       [] c = "AtMostOneUploader"   -> AtMostOneUploader(r, e, o)
 
-(* the outcome the table predicts, in the vocabulary of the clauses; a      *)
-(* sidecar that uploads in mode "on" runs the go command once (config       *)
-(* download), which is a launched process but not a sidecar                  *)
-Predicted(r) ==
+(* the outcome the table predicts for ONE start, in the vocabulary of the   *)
+(* clauses; a sidecar that uploads in mode "on" runs the go command once    *)
+(* (config download), which is a launched process but not a sidecar          *)
+Predicted1(r, e) ==
   LET d == Launch(r)
-      goes == IF r.mode = "on" /\ ((d.child /\ d.upload) \/ (r.marker = "1" /\ r.upload)) THEN 1 ELSE 0
+      up == d.child /\ (d.upload \/ e.leak)
+      goes == IF r.mode = "on" /\ (up \/ (r.marker = "1" /\ r.upload)) THEN 1 ELSE 0
+      logs == e.dbg = "dir" /\ d.child       \* the parent opens debug/sidecar.log for the child
   IN [ sidecars  |-> IF d.child THEN 1 ELSE 0,
-       uploaders |-> IF d.upload THEN 1 ELSE 0,
+       uploaders |-> IF up THEN 1 ELSE 0,
        nested    |-> 0,
        launched  |-> (IF d.child THEN 1 ELSE 0) + goes,
        acquired  |-> d.acquired,
-       wrote     |-> d.wrote ]
+       wrote     |-> d.wrote \cup (IF logs THEN {"debuglog"} ELSE {}) ]
+(* what the next start finds *)
+After(r) == [r EXCEPT !.token = IF Acquires(r) THEN "fresh" ELSE r.token]
+Plus(a, b) == [ sidecars |-> a.sidecars + b.sidecars, uploaders |-> a.uploaders + b.uploaders, nested |-> a.nested + b.nested,
+                launched |-> a.launched + b.launched, acquired |-> a.acquired \/ b.acquired, wrote |-> a.wrote \cup b.wrote ]
+RECURSIVE PredictedN(_, _, _)
+PredictedN(r, e, k) == IF k <= 1 THEN Predicted1(r, e) ELSE Plus(Predicted1(r, e), PredictedN(After(r), e, k - 1))
+Predicted(r, e) == PredictedN(r, e, e.calls)
 
-(* files outside the modelled classes that a row may (but need not) touch:  *)
+(* files outside the demanded classes that a run may (but need not) touch:  *)
 (* an uploader that gets as far as looking for work creates the upload     *)
-(* directory next to the local one; with a crash-reporting sidecar that is *)
-(* a race with the end of the application, so it is not demanded            *)
-UploaderRuns(r) == Launch(r).upload \/ (r.marker = "1" /\ r.upload)
-MayWrite(r) == IF UploaderRuns(r) /\ r.mode # "off" /\ r.localOK THEN {"uploaddir"} ELSE {}
+(* directory next to the local one and, if the user made a debug directory, *)
+(* a log file in it; with a crash-reporting sidecar that is a race with the *)
+(* end of the application, so it is not demanded                            *)
+UploaderRuns(r, e) == Predicted(r, e).uploaders > 0 \/ (r.marker = "1" /\ r.upload)
+MayWrite(r, e) == (IF UploaderRuns(r, e) /\ r.mode # "off" /\ r.localOK THEN {"uploaddir"} ELSE {})
+                  \* whoever gets as far as trying to launch a sidecar, or runs an uploader, may open a log file
+                  \cup (IF e.dbg = "dir" /\ (UploaderRuns(r, e) \/ (r.marker = "unset" /\ r.mode # "off")) THEN {"debuglog"} ELSE {})
 (* exact agreement of an outcome with the table *)
-Conforms(r, o) == /\ o.sidecars = Predicted(r).sidecars /\ o.uploaders = Predicted(r).uploaders
-                  /\ o.nested = 0 /\ o.launched = Predicted(r).launched
-                  /\ o.acquired = Predicted(r).acquired
-                  /\ Predicted(r).wrote \subseteq o.wrote
-                  /\ o.wrote \subseteq Predicted(r).wrote \cup MayWrite(r)
+Conforms(r, e, o) == LET p == Predicted(r, e) IN
+                     /\ o.sidecars = p.sidecars /\ o.uploaders = p.uploaders
+                     /\ o.nested = 0 /\ o.launched = p.launched
+                     /\ o.acquired = p.acquired
+                     /\ p.wrote \subseteq o.wrote
+                     /\ o.wrote \subseteq p.wrote \cup MayWrite(r, e)
+Fatal(r, e) == r.marker = "other" \/ e.appCrash
 
 (* sanity theorems about the table itself (checked by TLC over all rows) *)
-TableSatisfiesProperty == \A r \in Rows : \A c \in Clauses : Holds(c, r, Predicted(r))
+TableSatisfiesProperty == \A r \in Rows : \A e \in Extras : Applicable(r, e) => \A c \in Clauses : Holds(c, r, e, Predicted(r, e))
 TableNotVacuous ==
   /\ \E r \in Rows : Launch(r).child /\ ~Launch(r).upload
   /\ \E r \in Rows : Launch(r).child /\ Launch(r).upload /\ ~r.crash
   /\ \E r \in Rows : r.upload /\ r.mode = "on" /\ r.marker = "unset" /\ r.localOK /\ ~Launch(r).child
   /\ \A r \in Rows : (r.marker = "unset" /\ r.mode # "off" /\ r.localOK /\ r.crash) => Launch(r).child
+  /\ \E r \in Rows : \E e \in Extras : Applicable(r, e) /\ Predicted(r, e).sidecars = 3 /\ Predicted(r, e).uploaders = 1
+  /\ \A r \in Rows : r.token = "ghost" => ~Launch(r).acquired
 =============================================================================
